@@ -46,6 +46,9 @@ def check_model(rep, drv, gen, rng, m, text, c):
             continue
         pipeline.check_instance(rep, v1, text, "rhs")
         pipeline.check_instance(rep, v2, text, "euler")
+        pipeline.check_mirror_function(rep, drv, text, "rhs", ru, "tsp", fns["rhs"]["args"], impl.body_to_sx(fns["rhs"]["body"]))
+        pipeline.check_mirror_function(rep, drv, text, "euler", ru, "stdp", fns["explicit_euler"]["args"],
+                                       impl.body_to_sx(fns["explicit_euler"]["body"]))
         if not v1.get("valid"):
             bad.append((ru, "rhs", v1))
         if not v2.get("valid"):
